@@ -123,6 +123,7 @@ class SimServer:
         self.oauth_challenge_on_fail = False
         self.inject_after_starttls = False
         self.cap_variation = False     # case of capability names and order of capability lines are drawn
+        self.login_early_reject = False   # LOGIN: NO right after the user name, without a password challenge
         self.digest_final_in_ok = False   # DIGEST-MD5: rspauth in OK (SASL "...") instead of an extra challenge
         self.no_with_sasl_code = False    # a forced NO of the verdict still carries the final SASL data
         self.bye_with_referral = False    # forced BYEs carry (REFERRAL "sieve://other.example")
@@ -773,6 +774,12 @@ class SimServer:
         elif mech == "LOGIN":
             sasl["data"].append(data)
             if len(sasl["data"]) == 1:
+                if self.login_early_reject:
+                    # e.g. unknown or disabled user: refused without asking for the password
+                    seen = sasl["seen"]
+                    seen["decoded"] = {"authcid": data, "password": None, "authzid": None}
+                    self._sasl_finish(conn, False, b"unknown user")
+                    return
                 self._challenge(conn, b"Password:")
             else:
                 login, pw = sasl["data"]
